@@ -294,7 +294,7 @@ func init() {
 		Rule: "Engine A: (a) ALL Rel values with FromType, FromName, ToType, ToName in {\"\",a,b,ab,bc,c,a_b} (names whose concatenations and _-joined keys collide) x 4 cardinality pairs = 9604 values, laws asserted directly (involution, idempotence, range, one-way untouched, symmetric Normalize and String for two-way relationships with four non-empty names; self-inverse only with equal cardinalities); (b) every coherent schema over types {a,ab}(,b) and relationship names {x,bx}(,a_x) built slot by slot (absent / one-way to any type / two-way with any later free slot / self-inverse), every order of AddType, and every map-iteration order of one loop instance inside Rels() (deviation bound 1). Non-trivial = two-way relationship value / schema with at least one two-way pair",
 		Assumptions: []string{"relationships in the symmetric laws have non-empty FromType, FromName, ToType, ToName (what a schema can hold)"},
 		Harnesses: []Harness{
-			{Name: "C16/laws", Body: c16Laws},
+			{Name: "C16/laws", Body: c16Laws, ShardDepth: 1},
 			{Name: "C16/rels", Body: c16Rels, Dev: func() int { return 1 }},
 		},
 	})
